@@ -52,6 +52,9 @@ CONFIGS = {
                  "Costs": [1], "InitMaxCost": 2, "MaxCosts": [2]},
     "handoff4": {"Keys": [1], "Hashes": [1], "Clients": [1, 2], "MaxOps": 4, "Ops": ["set", "del", "wait", "clear"],
                  "Costs": [1], "InitMaxCost": 2, "MaxCosts": [2]},
+    # liveness beyond handoff3: one more call, without Set (Wait / Del / Clear hand-offs only)
+    "live4": {"Keys": [1], "Hashes": [1], "Clients": [1, 2], "MaxOps": 4, "Ops": ["del", "wait", "clear"],
+              "Costs": [1], "InitMaxCost": 2, "MaxCosts": [2]},
     "close3": {"Keys": [1, 2], "Hashes": [1, 2], "Clients": [1], "MaxOps": 4, "Ops": ["set", "del", "wait", "clear", "close", "get"],
                "Costs": [1], "InitMaxCost": 2, "MaxCosts": [2], "BufCap": 2, "TTLs": [0, 2], "MaxTime": 1},
     "close4": {"Keys": [1, 2], "Hashes": [1, 2], "Clients": [1], "MaxOps": 5, "Ops": ["set", "del", "wait", "clear", "close", "get"],
